@@ -234,13 +234,19 @@ func init() {
 		TimeoutQuick: 5 * time.Minute, TimeoutThorough: 30 * time.Minute,
 		Build: func(c *Ctx) []core.Workload {
 			r := c.Run
-			r.Rule = "each case is a conformant AuthnRequest plus 0, 1 or 2 labelled deviations (not base64 / not inflatable / not well-formed / wrong root / Issuer absent, empty, unregistered, look-alike under a lenient storage, wrong namespace / ID, Version absent or empty / Destination variants incl. another host with a host-derived issuer / Conditions outside the window or unparseable / unknown SAMLEncoding / SigAlg without Signature / empty SAMLRequest). Monitor 1: a labelled deviation must not be accepted. Monitor 2: every accepted request is decoded independently (expat) and all necessary conditions are re-evaluated against the call's time bracket. Distinct = (labels, outcome, transport, signing, serialisation style)."
+			r.Rule = "each case is a conformant AuthnRequest plus 0, 1 or 2 labelled deviations (not base64 / not inflatable / not well-formed / wrong root / Issuer absent, empty, unregistered, look-alike under a lenient storage, wrong namespace / ID, Version absent or empty / Destination variants incl. another host with a host-derived issuer / Conditions outside the window or unparseable / unknown SAMLEncoding / SigAlg without Signature / empty SAMLRequest). Monitor 1: a labelled deviation must not be accepted. Monitor 2: every accepted request is decoded independently (expat) and all necessary conditions are re-evaluated against the call's time bracket. A further workload drives ONE provider with a host-derived issuer through request sequences under several hosts in which some requests carry the Destination advertised for another host. Distinct = (labels, outcome, transport, signing, serialisation style)."
 			r.Assume("bytes after the root end tag and duplicate attributes are accepted by encoding/xml and are not used as deviations")
 			r.Assume("time conditions are judged against the wall-clock bracket [t0,t1] around the call with 2 s slack; expired/future deviations are at least 2 s / 5 s away from now")
 			r.Require("deviating_cases", 300)
 			r.Require("distinct_deviation_kinds", int64(len(c06Deviations)))
 			r.Require("accepted_independently_evaluated", 50)
-			return []core.Workload{{Name: "deviations", N: c.Pick(2000, 24000), Fn: c06Case}}
+			r.Require("multi_host_mismatches_refused", 200)
+			return []core.Workload{
+				{Name: "deviations", N: c.Pick(2000, 24000), Fn: c06Case},
+				{Name: "multi_host_sequences", N: c.Pick(150, 1500), Fn: func(r *core.Run, idx int, rng *rand.Rand) {
+					multiHostSequence(r, "multi_host_sequences", idx, rng, true)
+				}},
+			}
 		},
 		After: func(c *Ctx) { verify.Py.Close() },
 	})
